@@ -768,6 +768,10 @@ func TestVerifC11OSPeers(t *testing.T) {
 			}
 		}
 	}
+	// "missing answers": the client's output ends after k answers while it goes on reading its input
+	for _, k := range []int{1, 3} {
+		rows = append(rows, row{Kind: "client-output-ends", N: 6, ExitAfter: k})
+	}
 	for _, cmd := range []string{"exit 3", "exit 0", "sleep 0.3; exit 0", "exec 0<&-; sleep 0.3; exit 1"} {
 		rows = append(rows, row{Kind: "server-exits-at-once", N: 3, ServerCmd: cmd})
 	}
@@ -795,6 +799,33 @@ func TestVerifC11OSPeers(t *testing.T) {
 		ctx, cancel := context.WithCancel(context.Background())
 		var client clientRunner
 		var serverStart processStarter
+		if r.Kind == "client-output-ends" {
+			// an in-process client (the way the runner starts the reference clients): answers k requests, closes its
+			// output and keeps reading its input to the end (an OS process cannot show this: its output only ends for
+			// the runner when it exits)
+			k := r.ExitAfter
+			cr, err := runClient(ctx, runInProcess([]string{"verif-client"}, func(_ context.Context, _ []string, in io.ReadCloser, out, _ io.WriteCloser) error {
+				for answered := 0; ; {
+					req := &conformancev1.ClientCompatRequest{}
+					if err := internal.ReadDelimitedMessage(in, req, "runner", 30*time.Second, 16<<20); err != nil {
+						return nil
+					}
+					if answered >= k {
+						continue
+					}
+					_ = internal.WriteDelimitedMessage(out, &conformancev1.ClientCompatResponse{TestName: req.TestName,
+						Result: &conformancev1.ClientCompatResponse_Response{Response: proto.Clone(expected[req.TestName]).(*conformancev1.ClientResponseResult)}})
+					if answered++; answered == k {
+						_ = out.Close()
+					}
+				}
+			}))
+			if err != nil {
+				cancel()
+				continue
+			}
+			client = cr
+		}
 		if r.Kind == "client-exits-mid-write" {
 			scriptFile, logFile := filepath.Join(dir, fmt.Sprintf("client-%d.json", ri)), filepath.Join(dir, fmt.Sprintf("peer-%d.log", ri))
 			data, _ := json.Marshal(script)
@@ -805,6 +836,8 @@ func TestVerifC11OSPeers(t *testing.T) {
 				continue // environment
 			}
 			client = cr
+		}
+		if r.Kind != "server-exits-at-once" {
 			serverStart = runInProcess([]string{"verif-server"}, func(ctx context.Context, _ []string, in io.ReadCloser, out, _ io.WriteCloser) error {
 				req := &conformancev1.ServerCompatRequest{}
 				if err := internal.ReadDelimitedMessage(in, req, "runner", 10*time.Second, 1<<20); err != nil {
@@ -834,7 +867,7 @@ func TestVerifC11OSPeers(t *testing.T) {
 			viol = verifkit.Violf("os-peer-hang:"+r.Kind, "the batch did not end within %v (%+v)", bound, r)
 		}
 		if viol == nil {
-			if cr := client; r.Kind == "client-exits-mid-write" {
+			if cr := client; r.Kind != "server-exits-at-once" {
 				// the batch is over: the runner would now close the client's input and wait for it
 				waited := make(chan struct{})
 				go func() { defer close(waited); cr.closeSend(); _ = cr.waitForResponses() }()
@@ -854,6 +887,10 @@ func TestVerifC11OSPeers(t *testing.T) {
 					viol = verifkit.Violf("os-peer-outcome-missing:"+r.Kind, "case %d has no outcome (%+v, took %v)", i, r, time.Since(start))
 				case r.Kind == "server-exits-at-once" && !o.setupError:
 					viol = verifkit.Violf("os-peer-not-setup-error", "the server command exited without answering but case %d is not a setup error: failure=%v (%+v)", i, o.actualFailure, r)
+				case r.Kind == "client-output-ends" && i < r.ExitAfter && (o.actualFailure != nil || o.setupError):
+					viol = verifkit.Violf("os-peer-answered-lost", "case %d was answered by the client before its output ended but: setupError=%v failure=%v (%+v)", i, o.setupError, o.actualFailure, r)
+				case r.Kind == "client-output-ends" && i >= r.ExitAfter && o.actualFailure == nil && !o.setupError:
+					viol = verifkit.Violf("os-peer-phantom-pass", "case %d was never answered (the client's output had ended) but is recorded as passed (%+v)", i, r)
 				case r.Kind == "client-exits-mid-write" && i < r.ExitAfter && (o.actualFailure != nil || o.setupError):
 					viol = verifkit.Violf("os-peer-answered-lost", "case %d was answered by the client before it exited but: setupError=%v failure=%v (%+v)", i, o.setupError, o.actualFailure, r)
 				case r.Kind == "client-exits-mid-write" && i > r.ExitAfter && o.actualFailure == nil && !o.setupError:
@@ -863,9 +900,10 @@ func TestVerifC11OSPeers(t *testing.T) {
 			results.mu.Unlock()
 		}
 		cancel()
-		if r.Kind == "client-exits-mid-write" && viol == nil {
+		if r.Kind != "server-exits-at-once" && viol == nil {
 			client.stop()
 		}
+		t.Logf("%+v took %v", r, time.Since(start))
 		en.Rec.Observe(r, []string{r.Kind}, true)
 		if viol != nil && en.Fail(r, viol) {
 			break
